@@ -4,11 +4,18 @@
     The model ([Reactive/Graph.v], [Effects.v]) transcribes MemoInner, the signal notification
     path, Track::track, untrack, derived signals and effects.  [run_fixed p ops] is the state
     after the history [ops] (set / notify / read / poll the k-th ready task / run to idle /
-    pause / resume / dispose — every schedule is some [ops]). *)
+    pause / resume / dispose — every schedule is some [ops]).
+
+    Scope of the model: graphs whose nodes are declared up front (signals on both notification
+    paths, memos with or without equality cut-off, derived signals, effects); conditional and
+    untracked reads, reads from inside other computations, equal-value writes and bare notifies
+    are all in.  Memos created at run time inside another computation are NOT modelled (nor
+    generated); DESIGN 7.C01 defers them to the owner model.  [pure_effects] (effect bodies do
+    not write signals) is vacuous for the graphs of signals and memos C01 quantifies over. *)
 From Coq Require Import List ZArith.
 From LV Require Import Reactive.Graph Reactive.Effects Reactive.GraphInvariant Reactive.GraphPullBase
                        Reactive.GraphPullDefs Reactive.GraphProofs Reactive.EffectsProofs
-                       Reactive.EffectsRunProofs.
+                       Reactive.EffectsRunProofs Reactive.GraphReplay Reactive.GraphSpecProofs.
 Import ListNotations.
 Close Scope Z_scope.
 Open Scope nat_scope.
@@ -23,13 +30,40 @@ Theorem C01_invariant_in_every_reachable_state :
 Proof. exact reachable_inv. Qed.
 Print Assumptions C01_invariant_in_every_reachable_state.
 
-(** [read_consistent], consistency form: after any history, a read of node n leaves every signal
-    untouched, leaves n Clean with the returned value cached, and the WHOLE cone of tracked
-    inputs of n is current: every tracked entry of every last-run log in the cone shows the
-    source's present value (no mixture of old and new inputs); a signal read returns its value.
-    Partial: "the value is the body replayed over that log" is not yet stated (the body was
-    evaluated reading exactly the logged values; the replay function is the missing piece). *)
-Theorem C01_read_consistent_partial :
+(** [read_consistent]: for every well-formed graph, every history and every memo n, a read of n
+    returns the value obtained by replaying n's body over the log of its last run
+    ([replay_body]: the body is re-evaluated from scratch, every read answered by the next log
+    entry, derived signals expanded in place; it fails unless the body consumes exactly the
+    log), and that log is Consistent: every TRACKED entry shows the source's current value,
+    recursively so for tracked memos; untracked entries contribute the value seen at the last
+    run.  One replay over one log explains the value, hence no mixture of old and new inputs. *)
+Theorem C01_read_consistent :
+  forall p, wf_prog p -> pure_effects p ->
+  forall ops n cm e s' v,
+  wf_ops p ops -> decl_of p n = DMemo cm e ->
+  read_top p n (run_fixed p ops) = (s', v) ->
+  cache (getn s' n) = Some v /\
+  replay_body p n e (rlog (getn s' n)) = Some v /\
+  ConsistentM p s' n.
+Proof. exact read_consistent. Qed.
+Print Assumptions C01_read_consistent.
+
+(** [read_eq_spec]: when no memo / derived body reads through untrack or get_untracked, the value
+    read is the denotational value of the node over the current signal values ([spec]: bodies
+    evaluated recursively from the signals alone, no caches, no states), and the read changed
+    no signal *)
+Theorem C01_read_eq_spec :
+  forall p, wf_prog p -> pure_effects p ->
+  forall ops n s' v,
+  uf_prog p -> wf_ops p ops -> n < length p -> memob p n = true ->
+  read_top p n (run_fixed p ops) = (s', v) ->
+  spec p s' n = Some v /\ (forall i, sval (getn s' i) = sval (getn (run_fixed p ops) i)).
+Proof. exact read_eq_spec. Qed.
+Print Assumptions C01_read_eq_spec.
+
+(** the same read, seen from the graph: signals untouched, n Clean with the value cached, the
+    whole cone of tracked inputs current, a signal read returns its value *)
+Theorem C01_read_leaves_cone_current :
   forall p, wf_prog p -> pure_effects p ->
   forall ops n s' v,
   wf_ops p ops -> n < length p -> effb p n = false ->
@@ -39,7 +73,15 @@ Theorem C01_read_consistent_partial :
   (memob p n = true -> st (getn s' n) = Clean /\ cache (getn s' n) = Some v /\ ConsistentM p s' n) /\
   (sigb p n = true -> v = sval (getn s' n)).
 Proof. exact read_consistent_cone. Qed.
-Print Assumptions C01_read_consistent_partial.
+Print Assumptions C01_read_leaves_cone_current.
+
+(** any Clean memo of any state satisfying the invariant holds its denotational value *)
+Theorem C01_clean_memo_eq_spec :
+  forall p s, Inv0 p s -> uf_prog p ->
+  forall j, memob p j = true -> st (getn s j) = Clean ->
+  exists v, cache (getn s j) = Some v /\ spec p s j = Some v.
+Proof. exact clean_memo_eq_spec. Qed.
+Print Assumptions C01_clean_memo_eq_spec.
 
 (** reading again, with nothing written in between, returns the same value *)
 Theorem C01_read_idempotent :
